@@ -118,23 +118,40 @@ package eventlogger
 //@   ensures unlocked: noLocksHeld()
 //@   ensures C04/single-critical-section: acquisitions(b.lock) <= old(acquisitions(b.lock)) + 1
 
+//@ func (*Broker).detachNode(id, force) (node, err)
+//@   requires b != nil && held(b.lock) == 2 && wfNodes(b)
+//@   assigns map:map[NodeID]*nodeUsage, nodeUsage.referenceCount
+//@   ensures C05/not-found-is-noop: (id == "" || !old(id in b.nodes)) ==> err != nil && node == nil && nodesUnchanged(b)
+//@   ensures C06/in-use-refused: old(id in b.nodes) && old(b.nodes[id].referenceCount) > 0 && !force ==> err != nil && node == nil && nodesUnchanged(b)
+//@   ensures C06/unregistered: id != "" && old(id in b.nodes) && old(b.nodes[id].referenceCount) <= 1 && (force || old(b.nodes[id].referenceCount) == 0) ==> err == nil && !(id in b.nodes) && node == old(b.nodes[id].node)
+//@   ensures C06/forced-decrement: old(id in b.nodes) && old(b.nodes[id].referenceCount) > 1 && force ==> err == nil && node == nil && (id in b.nodes) && b.nodes[id] == old(b.nodes[id]) && b.nodes[id].referenceCount == old(b.nodes[id].referenceCount) - 1
+//@   ensures C06/others-untouched: forall j NodeID :: j != id ==> (j in b.nodes) == old(j in b.nodes) && b.nodes[j] == old(b.nodes[j]) && (old(j in b.nodes) ==> b.nodes[j].referenceCount == old(b.nodes[j].referenceCount))
+//@   ensures C06/usage-records-otherwise-untouched: forall u *nodeUsage :: old(allocated(u)) ==> u.node == old(u.node) && u.registrationPolicy == old(u.registrationPolicy) && (u != old(b.nodes[id]) ==> u.referenceCount == old(u.referenceCount))
+//@   ensures still-locked: held(b.lock) == 2 && acquisitions(b.lock) == old(acquisitions(b.lock))
+//@   ensures wf: wfNodes(b)
+
+//@ func closeNode(ctx, id, node) (err)
+//@   requires C12/callback-free: cbfree()
+//@   assigns ev, ctxdone
+//@   ensures C06/closes-at-most-once: calls("Closer.Close") <= old(calls("Closer.Close")) + 1 && (node == nil ==> err == nil && calls("Closer.Close") == old(calls("Closer.Close"))) && (err != nil ==> calls("Closer.Close") == old(calls("Closer.Close")) + 1)
+
+// removeNode is kept for callers that already hold the lock (only the package's tests); it is not reachable
+// from the exported API, so its call of closeNode with the lock held is outside C12 (see DESIGN.md).
 //@ func (*Broker).removeNode(ctx, id, force) (err)
 //@   requires b != nil && held(b.lock) == 2 && wfNodes(b)
-//@   ensures C04/no-lock-operations: acquisitions(b.lock) == old(acquisitions(b.lock))
 //@   assigns map:map[NodeID]*nodeUsage, nodeUsage.referenceCount, ev, ctxdone
 //@   ensures C05/not-found-is-noop: (id == "" || !old(id in b.nodes)) ==> err != nil && nodesUnchanged(b) && calls("Closer.Close") == old(calls("Closer.Close"))
 //@   ensures C06/in-use-refused: old(id in b.nodes) && old(b.nodes[id].referenceCount) > 0 && !force ==> err != nil && nodesUnchanged(b) && calls("Closer.Close") == old(calls("Closer.Close"))
-//@   ensures C06/removed-and-closed-once: id != "" && old(id in b.nodes) && old(b.nodes[id].referenceCount) <= 1 && (force || old(b.nodes[id].referenceCount) == 0) ==> !(id in b.nodes) && calls("Closer.Close") <= old(calls("Closer.Close")) + 1 && (err != nil ==> calls("Closer.Close") == old(calls("Closer.Close")) + 1)
-//@   ensures C06/forced-decrement: old(id in b.nodes) && old(b.nodes[id].referenceCount) > 1 && force ==> err == nil && (id in b.nodes) && b.nodes[id] == old(b.nodes[id]) && b.nodes[id].referenceCount == old(b.nodes[id].referenceCount) - 1 && calls("Closer.Close") == old(calls("Closer.Close"))
-//@   ensures C06/others-untouched: forall j NodeID :: j != id ==> (j in b.nodes) == old(j in b.nodes) && b.nodes[j] == old(b.nodes[j]) && (old(j in b.nodes) ==> b.nodes[j].referenceCount == old(b.nodes[j].referenceCount))
+//@   ensures C06/removed-and-closed-once: id != "" && old(id in b.nodes) && old(b.nodes[id].referenceCount) <= 1 && (force || old(b.nodes[id].referenceCount) == 0) ==> !(id in b.nodes) && calls("Closer.Close") <= old(calls("Closer.Close")) + 1
+//@   ensures C06/forced-decrement: old(id in b.nodes) && old(b.nodes[id].referenceCount) > 1 && force ==> err == nil && (id in b.nodes) && b.nodes[id].referenceCount == old(b.nodes[id].referenceCount) - 1 && calls("Closer.Close") == old(calls("Closer.Close"))
 //@   ensures still-locked: held(b.lock) == 2
-//@   ensures wf: wfNodes(b)
 
 //@ func (*Broker).RemoveNode(ctx, id) (err)
 //@   requires b != nil && noLocksHeld() && wfNodes(b)
 //@   ensures C05/failure-is-noop: err != nil && calls("Closer.Close") == old(calls("Closer.Close")) ==> nodesUnchanged(b)
 //@   ensures C06/in-use-refused: old(id in b.nodes) && old(b.nodes[id].referenceCount) > 0 ==> err != nil && nodesUnchanged(b) && calls("Closer.Close") == old(calls("Closer.Close"))
-//@   ensures C06/unused-removed: id != "" && old(id in b.nodes) && old(b.nodes[id].referenceCount) == 0 ==> !(id in b.nodes) && calls("Closer.Close") <= old(calls("Closer.Close")) + 1
+//@   ensures C06/unused-removed-and-closed-once: id != "" && old(id in b.nodes) && old(b.nodes[id].referenceCount) == 0 ==> !(id in b.nodes) && calls("Closer.Close") <= old(calls("Closer.Close")) + 1
+//@   ensures C06/closes-only-what-it-unregistered: calls("Closer.Close") > old(calls("Closer.Close")) ==> old(id in b.nodes) && !(id in b.nodes) && calls("Closer.Close") == old(calls("Closer.Close")) + 1
 //@   ensures C06/others-untouched: forall j NodeID :: j != id ==> (j in b.nodes) == old(j in b.nodes) && b.nodes[j] == old(b.nodes[j]) && (old(j in b.nodes) ==> b.nodes[j].referenceCount == old(b.nodes[j].referenceCount))
 //@   ensures wf: wfNodes(b)
 //@   ensures unlocked: noLocksHeld()
@@ -160,17 +177,17 @@ package eventlogger
 //@ func (*graphMap).Store(id, root)
 //@   requires g != nil
 //@   assigns syncmap, ev
-//@   ensures (id in view(g.m)) && view(g.m)[id] == root
-//@   ensures forall k PipelineID :: k != id ==> (k in view(g.m)) == old(k in view(g.m)) && view(g.m)[k] == old(view(g.m)[k])
-//@   ensures onlychanged("syncmap", g.m)
+//@   ensures (id in view(g.m)) && view(g.m)[id] == root && holdsType(g.m, id, "*registeredPipeline")
+//@   ensures forall k PipelineID :: k != id ==> (k in view(g.m)) == old(k in view(g.m)) && view(g.m)[k] == old(view(g.m)[k]) && holdsType(g.m, k, "*registeredPipeline") == old(holdsType(g.m, k, "*registeredPipeline"))
+//@   ensures onlychanged("syncmap", g.m) && unchanged("ncall") && unchanged("ncallr")
 //@   ensures C07/single-atomic-store: ev_n == old(ev_n) + 1 && ev_kind(old(ev_n)) == "mapstore" && ev_a(old(ev_n), 0) == ref(g.m) && ev_a(old(ev_n), 1) == id
 
 //@ func (*graphMap).Delete(id)
 //@   requires g != nil
 //@   assigns syncmap, ev
 //@   ensures !(id in view(g.m))
-//@   ensures forall k PipelineID :: k != id ==> (k in view(g.m)) == old(k in view(g.m)) && view(g.m)[k] == old(view(g.m)[k])
-//@   ensures onlychanged("syncmap", g.m)
+//@   ensures forall k PipelineID :: k != id ==> (k in view(g.m)) == old(k in view(g.m)) && view(g.m)[k] == old(view(g.m)[k]) && holdsType(g.m, k, "*registeredPipeline") == old(holdsType(g.m, k, "*registeredPipeline"))
+//@   ensures onlychanged("syncmap", g.m) && unchanged("ncall") && unchanged("ncallr")
 //@   ensures ev_n == old(ev_n) + 1 && ev_kind(old(ev_n)) == "mapdelete" && ev_a(old(ev_n), 0) == ref(g.m) && ev_a(old(ev_n), 1) == id
 
 //@ func (*Broker).IsAnyPipelineRegistered(e) (found)
@@ -181,10 +198,17 @@ package eventlogger
 //@   rangeloop 1 invariant !found && (forall k PipelineID :: !seen(1, k))
 
 //@ func (*Broker).RemovePipeline(t, id) (err)
-//@   requires b != nil && noLocksHeld() && wfGraphs(b)
-//@   ensures C05/bad-args-noop: (t == "" || id == "" || !old(t in b.graphs)) ==> err != nil && unchanged("syncmap")
+//@   requires b != nil && noLocksHeld() && wfGraphs(b) && wfNodes(b) && wfAllPipelines(b)
+//@   ensures C05/bad-args-noop: (t == "" || id == "" || !old(t in b.graphs)) ==> err != nil && unchanged("syncmap") && nodesUnchanged(b)
 //@   ensures C07/removed: !(t == "" || id == "" || !old(t in b.graphs)) ==> err == nil && !(id in view(b.graphs[t].roots.m)) && onlychanged("syncmap", b.graphs[t].roots.m) && (forall k PipelineID :: k != id ==> (k in view(b.graphs[t].roots.m)) == old(k in view(b.graphs[t].roots.m)) && view(b.graphs[t].roots.m)[k] == old(view(b.graphs[t].roots.m)[k]))
+//@   ensures C06/references-released: !(t == "" || id == "" || !old(t in b.graphs)) ==> (forall x NodeID :: (x in b.nodes) ==> b.nodes[x].referenceCount == old(b.nodes[x].referenceCount) - ((old(registeredPipelineLists(b, t, id, x)) && old(b.nodes[x].referenceCount) > 0) ? 1 : 0))
+//@   ensures C06/node-table-kept: (forall i NodeID :: (i in b.nodes) == old(i in b.nodes) && b.nodes[i] == old(b.nodes[i])) && (forall u *nodeUsage :: old(allocated(u)) ==> u.node == old(u.node) && u.registrationPolicy == old(u.registrationPolicy))
 //@   ensures graphs-untouched: forall u EventType :: (u in b.graphs) == old(u in b.graphs) && b.graphs[u] == old(b.graphs[u])
+//@   ensures wf: wfGraphs(b) && wfNodes(b)
+//@   ensures wf-typed: wfpTyped(b)
+//@   ensures wf-links-a: wfpLinksA(b)
+//@   ensures wf-links-b: wfpLinksB(b)
+//@   ensures wf-distinct: wfpDistinct(b)
 //@   ensures unlocked: noLocksHeld()
 //@   ensures C04/single-critical-section: acquisitions(b.lock) <= old(acquisitions(b.lock)) + 1
 
@@ -193,7 +217,7 @@ package eventlogger
 //@ type linkedNode ghostfield chain map[int]*linkedNode
 //@ type linkedNode ghostfield clen int
 
-//@ pure isChain(root *linkedNode) bool = root != nil && root.clen >= 1 && root.chain[0] == root && (forall k int :: 0 <= k && k < root.clen ==> (k in root.chain) && root.chain[k] != nil && allocated(root.chain[k]) && (k < root.clen - 1 ==> len(root.chain[k].next) == 1 && root.chain[k].next[0] == root.chain[k+1]) && (k == root.clen - 1 ==> len(root.chain[k].next) == 0)) && (forall j int, k int :: 0 <= j && j < k && k < root.clen ==> root.chain[j] != root.chain[k])
+//@ pure isChain(root *linkedNode) bool = root != nil && root.clen >= 1 && root.chain[0] == root && (forall k int :: 0 <= k && k < root.clen ==> (k in root.chain) && root.chain[k] != nil && allocated(root.chain[k]) && allocated(arr(root.chain[k].next)) && (k < root.clen - 1 ==> len(root.chain[k].next) == 1 && root.chain[k].next[0] == root.chain[k+1]) && (k == root.clen - 1 ==> len(root.chain[k].next) == 0)) && (forall j int, k int :: 0 <= j && j < k && k < root.clen ==> root.chain[j] != root.chain[k])
 
 //@ func linkNodes(nodes, ids) (root, err)
 //@   assigns linkedNode.node, linkedNode.nodeID, linkedNode.next, linkedNode.chain, linkedNode.clen, elem:*linkedNode
@@ -204,7 +228,7 @@ package eventlogger
 //@   ghost at loop 1 entry havoc linkedNode.chain, linkedNode.clen: root.clen == 1 && (forall k int :: (k in root.chain) == (k == 0) && (k == 0 ==> root.chain[k] == root)) && onlychanged("linkedNode.chain", root) && onlychanged("linkedNode.clen", root)
 //@   ghost at loop 1 backedge havoc linkedNode.chain, linkedNode.clen: root.clen == old(root.clen) + 1 && (forall k int :: (k in root.chain) == (old(k in root.chain) || k == old(root.clen)) && root.chain[k] == (k == old(root.clen) ? cur : old(root.chain[k]))) && onlychanged("linkedNode.chain", root) && onlychanged("linkedNode.clen", root)
 //@   loop 1 invariant fresh(root) && root.clen == rangeindex + 2 && cur == root.chain[rangeindex + 1] && len(nodes) == len(ids) && len(nodes) >= 1
-//@   loop 1 invariant root.chain[0] == root && (forall k int :: 0 <= k && k < root.clen ==> (k in root.chain) && root.chain[k] != nil && fresh(root.chain[k]) && root.chain[k].node == nodes[k] && root.chain[k].nodeID == ids[k] && (k < root.clen - 1 ==> len(root.chain[k].next) == 1 && root.chain[k].next[0] == root.chain[k+1]) && (k == root.clen - 1 ==> len(root.chain[k].next) == 0))
+//@   loop 1 invariant root.chain[0] == root && (forall k int :: 0 <= k && k < root.clen ==> (k in root.chain) && root.chain[k] != nil && fresh(root.chain[k]) && allocated(arr(root.chain[k].next)) && root.chain[k].node == nodes[k] && root.chain[k].nodeID == ids[k] && (k < root.clen - 1 ==> len(root.chain[k].next) == 1 && root.chain[k].next[0] == root.chain[k+1]) && (k == root.clen - 1 ==> len(root.chain[k].next) == 0))
 //@   loop 1 invariant forall j int, k int :: 0 <= j && j < k && k < root.clen ==> root.chain[j] != root.chain[k]
 //@   loop 1 invariant forall n *linkedNode :: old(allocated(n)) ==> n.node == old(n.node) && n.nodeID == old(n.nodeID) && n.next == old(n.next) && n.clen == old(n.clen) && (forall k int :: (k in n.chain) == old(k in n.chain) && n.chain[k] == old(n.chain[k]))
 //@   loop 1 invariant oldobjects("elem:*linkedNode")
@@ -228,10 +252,14 @@ package eventlogger
 
 //@ pure acceptable(b *Broker, def Pipeline) bool = def.PipelineID != "" && def.EventType != "" && len(def.NodeIDs) >= 2 && (forall j int :: 0 <= j && j < len(def.NodeIDs) ==> def.NodeIDs[j] != "" && (def.NodeIDs[j] in b.nodes)) && nodeType(b.nodes[def.NodeIDs[len(def.NodeIDs)-1]].node) == NodeTypeSink && isFormatterLike(b.nodes[def.NodeIDs[len(def.NodeIDs)-2]].node)
 
+//@ pure listed(root *linkedNode, id NodeID) bool = exists k int :: 0 <= k && k < root.clen && root.chain[k].nodeID == id
+
+//@ pure registeredPipelineLists(b *Broker, t EventType, p PipelineID, x NodeID) bool = (t in b.graphs) && (p in view(b.graphs[t].roots.m)) && listed(view(b.graphs[t].roots.m)[p].rootNode, x)
+
 //@ pure denied(b *Broker, def Pipeline) bool = (def.EventType in b.graphs) && (def.PipelineID in view(b.graphs[def.EventType].roots.m)) && view(b.graphs[def.EventType].roots.m)[def.PipelineID].registrationPolicy == DenyOverwrite
 
 //@ func (*Broker).RegisterPipeline(def, opt) (err)
-//@   requires b != nil && noLocksHeld() && wfGraphs(b) && wfNodes(b) && nodesNonNil(b)
+//@   requires b != nil && noLocksHeld() && wfGraphs(b) && wfNodes(b) && nodesNonNil(b) && wfAllPipelines(b)
 //@   ensures C05/accepted-definition-wellformed: err == nil ==> def.PipelineID != "" && def.EventType != "" && len(def.NodeIDs) >= 2
 //@   ensures C05/accepted-ids-registered: err == nil ==> (forall j int :: 0 <= j && j < len(def.NodeIDs) ==> def.NodeIDs[j] != "" && old(def.NodeIDs[j] in b.nodes))
 //@   ensures C05/accepted-ends-formatter-sink: err == nil ==> nodeType(old(b.nodes[def.NodeIDs[len(def.NodeIDs)-1]].node)) == NodeTypeSink && isFormatterLike(old(b.nodes[def.NodeIDs[len(def.NodeIDs)-2]].node))
@@ -245,12 +273,20 @@ package eventlogger
 //@   ensures C07/existing-graphs-kept: forall u EventType :: old(u in b.graphs) ==> (u in b.graphs) && b.graphs[u] == old(b.graphs[u])
 //@   ensures C06+C07/node-table-kept: (forall i NodeID :: (i in b.nodes) == old(i in b.nodes) && b.nodes[i] == old(b.nodes[i])) && (forall u *nodeUsage :: old(allocated(u)) ==> u.node == old(u.node) && u.registrationPolicy == old(u.registrationPolicy))
 //@   ensures wf: wfGraphs(b) && wfNodes(b)
+//@   ensures wf-typed: wfpTyped(b)
+//@   ensures wf-links-a: wfpLinksA(b)
+//@   ensures wf-links-b: wfpLinksB(b)
+//@   ensures wf-distinct: wfpDistinct(b)
+//@   ensures C06/failure-changes-no-count: err != nil ==> (forall u *nodeUsage :: old(allocated(u)) ==> u.referenceCount == old(u.referenceCount))
+//@   ensures C06/one-reference-per-listed-node: err == nil ==> (forall x NodeID :: (x in b.nodes) ==> b.nodes[x].referenceCount == old(b.nodes[x].referenceCount) - ((old(def.EventType in b.graphs) && old(def.PipelineID in view(b.graphs[def.EventType].roots.m)) && listed(old(view(b.graphs[def.EventType].roots.m)[def.PipelineID].rootNode), x) && old(b.nodes[x].referenceCount) > 0) ? 1 : 0) + ((x in def.NodeIDs) ? 1 : 0))
 //@   ensures unlocked: noLocksHeld()
 //@   ensures C04/single-critical-section: acquisitions(b.lock) <= old(acquisitions(b.lock)) + 1
 //@   rangeloop 1 invariant pol == AllowOverwrite && !seen(1, def.PipelineID)
 //@   loop 1 invariant len(nodes) == len(def.NodeIDs) && (forall j int :: 0 <= j && j <= rangeindex ==> (def.NodeIDs[j] in b.nodes) && nodes[j] == b.nodes[def.NodeIDs[j]].node)
 //@   ghost call (*graph).doValidate#1 with root = root, k = 0
-//@   loop 2 invariant forall u *nodeUsage :: u.referenceCount >= old(u.referenceCount)
+//@   loop 2 invariant held(b.lock) == 2 && (forall x NodeID :: visited(x) ==> (x in ranged()))
+//@   loop 2 invariant forall x NodeID :: (x in b.nodes) ==> b.nodes[x].referenceCount == old(b.nodes[x].referenceCount) - (((x in replaced) && old(b.nodes[x].referenceCount) > 0) ? 1 : 0) + (visited(x) ? 1 : 0)
+//@   loop 2 invariant forall u *nodeUsage :: (forall x NodeID :: (x in b.nodes) ==> b.nodes[x] != u) ==> u.referenceCount == old(u.referenceCount)
 
 // ---- event fan-out (C01, C02, C03) ----
 // Trace events used below (see DESIGN.md): "call:eventlogger.Node.Process" a0=node value a2=ctx a3=event in,
@@ -323,7 +359,7 @@ package eventlogger
 
 //@ pure chainNodesNonNil(root *linkedNode) bool = forall j int :: 0 <= j && j < root.clen ==> root.chain[j].node != nil
 
-//@ pure wfPipelines(g *graph) bool = forall p PipelineID :: (p in view(g.roots.m)) ==> view(g.roots.m)[p] != nil && isChain(view(g.roots.m)[p].rootNode) && chainNodesNonNil(view(g.roots.m)[p].rootNode)
+//@ pure wfPipelines(g *graph) bool = forall p PipelineID :: (p in view(g.roots.m)) ==> holdsType(g.roots.m, p, "*registeredPipeline") && view(g.roots.m)[p] != nil && isChain(view(g.roots.m)[p].rootNode) && chainNodesNonNil(view(g.roots.m)[p].rootNode)
 
 //@ func (*graph).doReopen(ctx, node) (err)
 //@   ghostparam root *linkedNode, k int
@@ -353,7 +389,13 @@ package eventlogger
 //@ type Broker ghostfield gpos map[EventType]int
 //@ type Broker ghostfield gtyp map[int]EventType
 
-//@ pure wfAllPipelines(b *Broker) bool = forall t EventType :: (t in b.graphs) ==> wfPipelines(b.graphs[t])
+//@ pure wfpTyped(b *Broker) bool = forall t EventType, p PipelineID :: (t in b.graphs) && (p in view(b.graphs[t].roots.m)) ==> holdsType(b.graphs[t].roots.m, p, "*registeredPipeline") && view(b.graphs[t].roots.m)[p] != nil && view(b.graphs[t].roots.m)[p].rootNode != nil && view(b.graphs[t].roots.m)[p].rootNode.clen >= 1 && view(b.graphs[t].roots.m)[p].rootNode.chain[0] == view(b.graphs[t].roots.m)[p].rootNode
+//@ pure wfpLinksA(b *Broker) bool = forall t EventType, p PipelineID, k int :: (t in b.graphs) && (p in view(b.graphs[t].roots.m)) && 0 <= k && k < view(b.graphs[t].roots.m)[p].rootNode.clen ==> (k in view(b.graphs[t].roots.m)[p].rootNode.chain) && view(b.graphs[t].roots.m)[p].rootNode.chain[k] != nil && allocated(view(b.graphs[t].roots.m)[p].rootNode.chain[k]) && view(b.graphs[t].roots.m)[p].rootNode.chain[k].node != nil
+//@ pure wfpLinksB(b *Broker) bool = forall t EventType, p PipelineID, k int :: (t in b.graphs) && (p in view(b.graphs[t].roots.m)) && 0 <= k && k < view(b.graphs[t].roots.m)[p].rootNode.clen ==> allocated(arr(view(b.graphs[t].roots.m)[p].rootNode.chain[k].next)) && (k < view(b.graphs[t].roots.m)[p].rootNode.clen - 1 ==> len(view(b.graphs[t].roots.m)[p].rootNode.chain[k].next) == 1 && view(b.graphs[t].roots.m)[p].rootNode.chain[k].next[0] == view(b.graphs[t].roots.m)[p].rootNode.chain[k+1]) && (k == view(b.graphs[t].roots.m)[p].rootNode.clen - 1 ==> len(view(b.graphs[t].roots.m)[p].rootNode.chain[k].next) == 0)
+//@ pure wfpLinks(b *Broker) bool = wfpLinksA(b) && wfpLinksB(b)
+//@ pure wfpDistinct(b *Broker) bool = forall t EventType, p PipelineID, j int, k int :: (t in b.graphs) && (p in view(b.graphs[t].roots.m)) && 0 <= j && j < k && k < view(b.graphs[t].roots.m)[p].rootNode.clen ==> view(b.graphs[t].roots.m)[p].rootNode.chain[j] != view(b.graphs[t].roots.m)[p].rootNode.chain[k]
+
+//@ pure wfAllPipelines(b *Broker) bool = wfpTyped(b) && wfpLinks(b) && wfpDistinct(b)
 
 //@ func (*Broker).Reopen(ctx) (err)
 //@   requires b != nil && noLocksHeld() && wfGraphs(b) && wfAllPipelines(b)
@@ -370,3 +412,104 @@ package eventlogger
 //@   loop 2 invariant L2b: forall a int :: 0 <= a && a < len(graphs) ==> (b.gtyp[a] in b.graphs) && graphs[a] == b.graphs[b.gtyp[a]]
 //@   loop 2 invariant L2c: forall a int, p PipelineID, j int :: 0 <= a && a <= rangeindex && (p in view(graphs[a].roots.m)) && 0 <= j && j < view(graphs[a].roots.m)[p].rootNode.clen ==> newCallsOn("Node.Reopen", view(graphs[a].roots.m)[p].rootNode.chain[j].node) > 0
 //@   loop 2 invariant forall i int :: old(ev_n) <= i && i < ev_n && ev_kind(i) == "call:eventlogger.Node.Reopen" ==> ev_a(i, 5) == 0
+
+// ---- flatten / Nodes: the distinct node IDs of a linked pipeline (C06) ----
+// ghost: l.fj counts the nodes popped so far; l.fwit[id] is a chain position carrying id (witness).
+//@ type linkedNode ghostfield fj int
+//@ type linkedNode ghostfield fwit map[NodeID]int
+
+//@ func (*linkedNode).flatten() (flattened)
+//@   requires isChain(l)
+//@   assigns map:map[NodeID]struct{}, elem:*linkedNode, linkedNode.fj, linkedNode.fwit
+//@   ensures C06/covers-chain: forall k int :: 0 <= k && k < l.clen ==> (l.chain[k].nodeID in flattened)
+//@   ensures C06/only-chain-ids: forall id NodeID :: (id in flattened) ==> 0 <= l.fwit[id] && l.fwit[id] < l.clen && l.chain[l.fwit[id]].nodeID == id
+//@   ensures result-is-new: flattened != nil && fresh(flattened)
+//@   ensures frame: oldobjects("elem:*linkedNode") && oldobjects("map:map[NodeID]struct{}")
+//@   ghost at loop 1 entry havoc linkedNode.fj, linkedNode.fwit: l.fj == 0
+//@   ghost at loop 1 backedge havoc linkedNode.fj, linkedNode.fwit: l.fj == old(l.fj) + 1 && (forall x NodeID :: l.fwit[x] == (x == l.chain[old(l.fj)].nodeID ? old(l.fj) : old(l.fwit[x])))
+//@   loop 1 invariant A: 0 <= l.fj && l.fj <= l.clen
+//@   loop 1 invariant B: l.fj < l.clen ==> len(stack) == 1 && stack[0] == l.chain[l.fj]
+//@   loop 1 invariant C: l.fj == l.clen ==> len(stack) == 0
+//@   loop 1 invariant D: flattened != nil && fresh(flattened) && fresh(arr(stack))
+//@   loop 1 invariant forall k int :: 0 <= k && k < l.fj ==> (l.chain[k].nodeID in flattened)
+//@   loop 1 invariant forall id NodeID :: (id in flattened) ==> 0 <= l.fwit[id] && l.fwit[id] < l.fj && l.chain[l.fwit[id]].nodeID == id
+//@   loop 1 invariant oldobjects("elem:*linkedNode") && oldobjects("map:map[NodeID]struct{}")
+//@   loop 2 invariant 0 <= l.fj && l.fj < l.clen && node == l.chain[l.fj] && (rangeindex == -1 ==> len(stack) == 0) && (rangeindex >= 0 ==> len(stack) == 1 && stack[0] == node.next[0]) && flattened != nil && fresh(flattened) && fresh(arr(stack))
+//@   loop 2 invariant forall k int :: 0 <= k && k <= l.fj ==> (l.chain[k].nodeID in flattened)
+//@   loop 2 invariant forall id NodeID :: (id in flattened) ==> id == node.nodeID || (0 <= l.fwit[id] && l.fwit[id] < l.fj && l.chain[l.fwit[id]].nodeID == id)
+//@   loop 2 invariant oldobjects("elem:*linkedNode") && oldobjects("map:map[NodeID]struct{}")
+
+// ghost: g.npos[x] is the position of node ID x in the slice returned by Nodes (witness)
+//@ type graphMap ghostfield npos map[NodeID]int
+
+//@ func (*graphMap).Nodes(id) (ids, err)
+//@   requires g != nil && ((id in view(g.m)) ==> holdsType(g.m, id, "*registeredPipeline") && view(g.m)[id] != nil && isChain(view(g.m)[id].rootNode))
+//@   assigns map:map[NodeID]struct{}, elem:*linkedNode, linkedNode.fj, linkedNode.fwit, elem:NodeID, graphMap.npos, iter
+//@   ensures C06/unknown-pipeline-has-no-nodes: (err != nil) <==> !(id in view(g.m))
+//@   ensures C06/error-returns-nothing: err != nil ==> len(ids) == 0
+//@   ensures C06/only-ids-of-the-pipeline: err == nil ==> (id in view(g.m)) && (forall a int :: 0 <= a && a < len(ids) ==> 0 <= view(g.m)[id].rootNode.fwit[ids[a]] && view(g.m)[id].rootNode.fwit[ids[a]] < view(g.m)[id].rootNode.clen && view(g.m)[id].rootNode.chain[view(g.m)[id].rootNode.fwit[ids[a]]].nodeID == ids[a])
+//@   ensures C06/every-id-of-the-pipeline: err == nil ==> (forall k int :: 0 <= k && k < view(g.m)[id].rootNode.clen ==> 0 <= g.npos[view(g.m)[id].rootNode.chain[k].nodeID] && g.npos[view(g.m)[id].rootNode.chain[k].nodeID] < len(ids) && ids[g.npos[view(g.m)[id].rootNode.chain[k].nodeID]] == view(g.m)[id].rootNode.chain[k].nodeID)
+//@   ensures C06/exactly-the-listed-ids: err == nil ==> (forall x NodeID :: (x in ids) <==> listed(view(g.m)[id].rootNode, x))
+//@   ensures C06/each-id-once: forall a int, c int :: 0 <= a && a < c && c < len(ids) ==> ids[a] != ids[c]
+//@   ensures frame: (err == nil ==> fresh(arr(ids))) && oldobjects("elem:*linkedNode") && oldobjects("map:map[NodeID]struct{}") && oldobjects("elem:NodeID")
+//@   ghost at loop 1 backedge havoc graphMap.npos: forall x NodeID :: g.npos[x] == (x == k ? i - 1 : old(g.npos[x]))
+//@   loop 1 invariant 0 <= i && i == produced() && i <= len(result) && fresh(arr(result)) && len(result) == len(nodes) && oldobjects("elem:NodeID")
+//@   loop 1 invariant forall a int :: 0 <= a && a < i ==> visited(result[a])
+//@   loop 1 invariant forall x NodeID :: visited(x) ==> (x in nodes) && 0 <= g.npos[x] && g.npos[x] < i && result[g.npos[x]] == x
+//@   loop 1 invariant forall a int, c int :: 0 <= a && a < c && c < i ==> result[a] != result[c]
+
+// ---- in-use accounting (C06) ----
+// ghost: b.uses[id] is the number of registered pipelines (of any event type) that list node id. It is
+// updated where a pipeline enters or leaves a graph (graphMap.Store / Delete) from the property's definition.
+//@ type Broker ghostfield uses map[NodeID]int
+
+
+//@ pure wfUses(b *Broker) bool = forall id NodeID :: b.uses[id] >= 0 && ((id in b.nodes) ==> b.nodes[id].referenceCount == b.uses[id]) && (b.uses[id] > 0 ==> (id in b.nodes))
+
+//@ func (*Broker).releaseNodes(ids)
+//@   requires b != nil && held(b.lock) == 2 && wfNodes(b)
+//@   requires forall a int, c int :: 0 <= a && a < c && c < len(ids) ==> ids[a] != ids[c]
+//@   assigns nodeUsage.referenceCount
+//@   ensures C06/one-reference-released-per-listed-node: forall x NodeID :: (x in b.nodes) ==> b.nodes[x].referenceCount == old(b.nodes[x].referenceCount) - (((x in ids) && old(b.nodes[x].referenceCount) > 0) ? 1 : 0)
+//@   ensures C06/unregistered-usage-untouched: forall u *nodeUsage :: (forall x NodeID :: (x in b.nodes) ==> b.nodes[x] != u) ==> u.referenceCount == old(u.referenceCount)
+//@   ensures wf: wfNodes(b)
+//@   loop 1 invariant forall x NodeID :: (x in b.nodes) ==> b.nodes[x].referenceCount == old(b.nodes[x].referenceCount) - (((x in ids[:rangeindex+1]) && old(b.nodes[x].referenceCount) > 0) ? 1 : 0)
+//@   loop 1 invariant forall u *nodeUsage :: (forall x NodeID :: (x in b.nodes) ==> b.nodes[x] != u) ==> u.referenceCount == old(u.referenceCount)
+
+//@ func (*Broker).detachPipelineAndNodes(t, id) (detached, nodeErr, err)
+//@   requires b != nil && noLocksHeld() && wfGraphs(b) && wfNodes(b) && wfAllPipelines(b)
+//@   ensures C05/failed-precondition-is-noop: err != nil ==> unchanged("syncmap") && nodesUnchanged(b)
+//@   assigns syncmap, ev, map:map[NodeID]*nodeUsage, nodeUsage.referenceCount, map:map[NodeID]Node, held, lockacq, multierror, graphMap.npos, linkedNode.fj, linkedNode.fwit, elem:*linkedNode, elem:NodeID, map:map[NodeID]struct{}, iter, elem:error, elem:any
+//@   ensures C05/unknown-pipeline-fails: !(old(t in b.graphs) && old(id in view(b.graphs[t].roots.m))) ==> err != nil
+//@   ensures C06/closes-nothing: calls("Closer.Close") == old(calls("Closer.Close"))
+//@   ensures C06/pipeline-removed: err == nil ==> !(id in view(b.graphs[t].roots.m)) && onlychanged("syncmap", b.graphs[t].roots.m) && (forall k PipelineID :: k != id ==> (k in view(b.graphs[t].roots.m)) == old(k in view(b.graphs[t].roots.m)) && view(b.graphs[t].roots.m)[k] == old(view(b.graphs[t].roots.m)[k]))
+//@   ensures C06/unlisted-nodes-untouched: err == nil ==> (forall x NodeID :: !old(registeredPipelineLists(b, t, id, x)) ==> (x in b.nodes) == old(x in b.nodes) && b.nodes[x] == old(b.nodes[x]) && (old(x in b.nodes) ==> b.nodes[x].referenceCount == old(b.nodes[x].referenceCount)) && !(x in detached))
+//@   ensures C06/last-reference-unregisters: err == nil ==> (forall x NodeID :: old(registeredPipelineLists(b, t, id, x)) && old(x in b.nodes) && old(b.nodes[x].referenceCount) <= 1 ==> !(x in b.nodes) && (old(b.nodes[x].node) != nil ==> (x in detached) && detached[x] == old(b.nodes[x].node)))
+//@   ensures C06/shared-nodes-stay-registered: err == nil ==> (forall x NodeID :: old(registeredPipelineLists(b, t, id, x)) && old(x in b.nodes) && old(b.nodes[x].referenceCount) > 1 ==> (x in b.nodes) && b.nodes[x] == old(b.nodes[x]) && b.nodes[x].referenceCount == old(b.nodes[x].referenceCount) - 1 && !(x in detached))
+//@   ensures C06/detached-were-registered: err == nil ==> (forall x NodeID :: (x in detached) ==> old(x in b.nodes) && !(x in b.nodes) && detached[x] == old(b.nodes[x].node) && detached[x] != nil)
+//@   ensures graphs-untouched: forall u EventType :: (u in b.graphs) == old(u in b.graphs) && b.graphs[u] == old(b.graphs[u])
+//@   ensures wf: wfGraphs(b) && wfNodes(b)
+//@   ensures wf-typed: wfpTyped(b)
+//@   ensures wf-links-a: wfpLinksA(b)
+//@   ensures wf-links-b: wfpLinksB(b)
+//@   ensures wf-distinct: wfpDistinct(b)
+//@   ensures unlocked: noLocksHeld()
+//@   ensures C04/single-critical-section: acquisitions(b.lock) <= old(acquisitions(b.lock)) + 1
+//@   loop 1 invariant held(b.lock) == 2 && wfNodes(b) && detached != nil && fresh(detached) && calls("Closer.Close") == old(calls("Closer.Close"))
+//@   loop 1 invariant forall x NodeID :: !(x in nodes[:rangeindex+1]) ==> (x in b.nodes) == old(x in b.nodes) && b.nodes[x] == old(b.nodes[x]) && (old(x in b.nodes) ==> b.nodes[x].referenceCount == old(b.nodes[x].referenceCount)) && !(x in detached)
+//@   loop 1 invariant forall x NodeID :: (x in nodes[:rangeindex+1]) && old(x in b.nodes) && old(b.nodes[x].referenceCount) <= 1 ==> !(x in b.nodes) && (old(b.nodes[x].node) != nil ==> (x in detached) && detached[x] == old(b.nodes[x].node))
+//@   loop 1 invariant forall x NodeID :: (x in nodes[:rangeindex+1]) && old(x in b.nodes) && old(b.nodes[x].referenceCount) > 1 ==> (x in b.nodes) && b.nodes[x] == old(b.nodes[x]) && b.nodes[x].referenceCount == old(b.nodes[x].referenceCount) - 1 && !(x in detached)
+//@   loop 1 invariant forall x NodeID :: (x in detached) ==> old(x in b.nodes) && !(x in b.nodes) && detached[x] == old(b.nodes[x].node) && detached[x] != nil
+//@   loop 1 invariant forall u *nodeUsage :: old(allocated(u)) ==> u.node == old(u.node) && u.registrationPolicy == old(u.registrationPolicy)
+
+//@ func (*Broker).RemovePipelineAndNodes(ctx, t, id) (ok, err)
+//@   requires b != nil && noLocksHeld() && wfGraphs(b) && wfNodes(b) && wfAllPipelines(b)
+//@   ensures C05/false-is-noop: !ok ==> err != nil && unchanged("syncmap") && nodesUnchanged(b) && calls("Closer.Close") == old(calls("Closer.Close"))
+//@   ensures C06/unknown-pipeline-is-false: !(t != "" && id != "" && old(t in b.graphs) && old(id in view(b.graphs[t].roots.m))) ==> !ok
+//@   ensures C06/pipeline-removed: ok ==> !(id in view(b.graphs[t].roots.m)) && onlychanged("syncmap", b.graphs[t].roots.m)
+//@   ensures C06/unlisted-nodes-untouched: ok ==> (forall x NodeID :: !old(registeredPipelineLists(b, t, id, x)) ==> (x in b.nodes) == old(x in b.nodes) && b.nodes[x] == old(b.nodes[x]) && (old(x in b.nodes) ==> b.nodes[x].referenceCount == old(b.nodes[x].referenceCount)))
+//@   ensures C06/last-reference-unregisters: ok ==> (forall x NodeID :: old(registeredPipelineLists(b, t, id, x)) && old(x in b.nodes) && old(b.nodes[x].referenceCount) <= 1 ==> !(x in b.nodes))
+//@   ensures C06/shared-nodes-stay-registered: ok ==> (forall x NodeID :: old(registeredPipelineLists(b, t, id, x)) && old(x in b.nodes) && old(b.nodes[x].referenceCount) > 1 ==> (x in b.nodes) && b.nodes[x] == old(b.nodes[x]) && b.nodes[x].referenceCount == old(b.nodes[x].referenceCount) - 1)
+//@   ensures unlocked: noLocksHeld()
+//@   ensures C04/single-critical-section: acquisitions(b.lock) <= old(acquisitions(b.lock)) + 1
+//@   loop 1 invariant noLocksHeld() && calls("Closer.Close") <= entry(calls("Closer.Close")) + produced()
